@@ -286,7 +286,9 @@ def run_case(case):
 
     if mappable:
         cid = mappable[0]
-        src_opts = [o for c, _, os_ in spec['choices'] if c == cid for o in os_]
+        # the options the source GRAPH offers (an option removed at initialisation needs no mapping entry)
+        live_opts = {b.name(o) for o in src.get_option_nodes(b.choices[cid])}
+        src_opts = [o for c, _, os_ in spec['choices'] if c == cid for o in os_ if o in live_opts]
         cond = bool(src.has_conditional_existence(b.choices[cid]))
         # one source option unmapped
         if len(src_opts) >= 2:
